@@ -154,3 +154,115 @@ EXPLANATION = "under construction"
 ASSUMPTIONS = []
 TRUSTED = []
 BOUNDED = [{"name": "foreign-key-and-required-key-at-every-position", "script": "bounded/b06_unknown_required.py"}]
+
+
+# ------------------------------------------------------------------------------------------------ _is_branch_key
+# check_values accepts a key without an action only when it is a *branch* of declared keys: some declared dest lies strictly below it
+# (dest starts with key + "."). A key that is merely a string prefix of a declared name ("batch" vs "batch_size") is not a branch.
+def bk_setup(ctx):
+    from pyvc.engine import ClassRef
+    n = ctx.choose(3, "number-of-declared-actions")
+    with_sub = ctx.choose(2, "a-subcommands-action-comes-first") == 1
+    key = z3.String("key")
+    dests = [z3.String(f"dest{i}") for i in range(n)]
+    actions = [Rec("Action", attrs={"dest": d}) for d in dests]
+    root, rest = z3.String("key.root"), z3.String("key.rest")
+    ctx.assume(z3.Or(z3.And(root == key, z3.Not(z3.Contains(key, z3.StringVal(".")))), z3.And(key == z3.Concat(root, z3.StringVal("."), rest), z3.Not(z3.Contains(root, z3.StringVal("."))))))
+    has_root = z3.Bool("root-names-a-subcommand")
+    sub_result = z3.Bool("_is_branch_key(subparser, rest)")
+    subparser = Rec("ArgumentParser(sub)")
+    if with_sub:
+        ctx.classes.add("_ActionSubCommands", ["Action"])
+        name_map = Rec("dict", methods={"__contains__": lambda c, s_, a, k: has_root, "__getitem__": lambda c, s_, a, k: subparser})
+        actions.insert(0, Rec("_ActionSubCommands", attrs={"dest": z3.String("subcommands.dest"), "_name_parser_map": name_map}))
+    parser = Rec("ArgumentParser", attrs={"_actions": actions})
+
+    def split_root(c, a, k):
+        c.event("split", a[0])
+        return [root, rest]
+
+    def recursive(c, a, k):
+        c.event("recurse", a[0], a[1])
+        return sub_result
+
+    calls = {"split_key_root": split_root, "filter_default_actions": lambda c, a, k: a[0], "_is_branch_key": recursive}
+    consts = {"_ActionSubCommands": ClassRef("_ActionSubCommands")}
+    return Setup(env={"parser": parser, "key": key}, calls=calls, consts=consts, data=dict(key=key, dests=dests, with_sub=with_sub, has_root=has_root, sub_result=sub_result, subparser=subparser, rest=rest,
+                                                                                           sub_dest=actions[0].attrs["dest"] if with_sub else None))
+
+
+def bk_post(ctx, st, result):
+    d = st.data
+    below = [z3.PrefixOf(z3.Concat(d["key"], z3.StringVal(".")), x) for x in d["dests"]]
+    own = z3.Or(*below) if below else z3.BoolVal(False)
+    if d["with_sub"]:
+        own = z3.Or(own, z3.PrefixOf(z3.Concat(d["key"], z3.StringVal(".")), d["sub_dest"]))
+        spec = z3.If(d["has_root"], d["sub_result"], own)
+        rec = [e for e in ctx.events if e[0] == "recurse"]
+        ctx.oblige("post", "below-a-subcommand-the-question-is-put-to-that-subcommand's-parser-with-the-rest-of-the-key", z3.Implies(d["has_root"], z3.BoolVal(len(rec) == 1 and rec[0][1] is d["subparser"] and rec[0][2] is d["rest"])))
+    else:
+        spec = own
+    ctx.oblige("post", f"branch-key<=>some-declared-dest-lies-strictly-below-it(dest starts with key + '.')[{len(d['dests'])} actions{',subcommands' if d['with_sub'] else ''}]", lift(result) == spec, strings=True)
+
+
+def bk_raises(ctx, st, exc):
+    ctx.oblige("raises", f"no-own-exception(got {exc.cls}@{exc.origin})", False)
+
+
+# ------------------------------------------------------------------------------------------------ _positional_optionals
+# argv tokens that argparse left over are either given, in order, to the next optional that takes a positional value, or returned as
+# unrecognized (parse_args then fails on them): none is dropped.
+def po_setup(ctx):
+    n_unk = 1 + ctx.choose(4, "leftover-tokens")
+    kinds = [(), ("opt",), ("opt", "opt"), ("pos-set", "opt"), ("pos-missing", "opt"), ("opt", "pos-set", "opt"), ("opt", "opt", "opt")][ctx.choose(7, "actions")]
+    supported = ctx.choose(2, "setting-enabled") == 1
+    unk = [z3.String(f"tok{i}") for i in range(n_unk)]
+    store = {}
+    actions = []
+    for i, kd in enumerate(kinds):
+        actions.append(Rec("Action", attrs={"dest": f"a{i}", "option_strings": [] if kd.startswith("pos") else [f"--a{i}"]}))
+        if kd == "pos-set":
+            store[f"a{i}"] = z3.Int(f"cfg.a{i}")
+
+    def check_value_key(c, s_, a, k):
+        c.event("assign", a[0].attrs["dest"], a[1])
+        return ("checked", a[1])
+
+    cfg = Rec("Namespace", methods={"get": lambda c, s_, a, k: store.get(a[0]), "__setitem__": lambda c, s_, a, k: store.__setitem__(a[0], a[1])})
+    self = Rec("ArgumentParser", attrs={"_logger": Rec("Logger", methods={"debug": lambda c, s_, a, k: None})}, methods={"_check_value_key": check_value_key})
+    calls = {"supports_optionals_as_positionals": lambda c, a, k: supported, "get_optionals_as_positionals_actions": lambda c, a, k: list(actions)}
+    return Setup(env={"self": self, "cfg": cfg, "unk": list(unk)}, calls=calls, data=dict(unk=unk, kinds=kinds, supported=supported, store=store, cfg=cfg))
+
+
+def po_post(ctx, st, result):
+    d = st.data
+    tag = f"[{len(d['unk'])} tokens, actions {d['kinds']}{'' if d['supported'] else ', setting off'}]"
+    ok_shape = isinstance(result, tuple) and len(result) == 2 and result[0] is d["cfg"] and isinstance(result[1], list)
+    ctx.oblige("post", "returns-(cfg, leftover)" + tag, ok_shape)
+    if not ok_shape:
+        return
+    used = [e[2] for e in ctx.events if e[0] == "assign"]
+    ctx.oblige("post", "no-leftover-token-is-dropped:consumed-tokens+returned-leftover==the-given-leftover,in-order" + tag,
+               len(used) + len(result[1]) == len(d["unk"]) and all(x is y for x, y in zip(used + result[1], d["unk"])))
+    # who gets them: the optionals in declaration order, stopping at a positional that has no value yet
+    takers = []
+    for i, kd in enumerate(d["kinds"]):
+        if kd == "pos-missing":
+            break
+        if kd == "opt":
+            takers.append(f"a{i}")
+    want = takers[: len(d["unk"])] if d["supported"] else []
+    ctx.oblige("post", "tokens-go-to-the-optionals-in-declaration-order(after the positionals are satisfied)" + tag, [e[1] for e in ctx.events if e[0] == "assign"] == want
+               and all(d["store"].get(k) == ("checked", t) for k, t in zip(want, d["unk"])))
+
+
+def po_raises(ctx, st, exc):
+    ctx.oblige("raises", f"no-own-exception(got {exc.cls}@{exc.origin})", False)
+
+
+UNITS += [
+    Unit("C06", "jsonargparse._actions:_is_branch_key", bk_setup, bk_post, bk_raises, expect_cover=("return",),
+         trusted=["split_key_root(key) == key.split('.', 1) (stated as a hypothesis on root/rest)", "the recursive call is used by contract"]),
+    Unit("C06", "jsonargparse._core:ArgumentParser._positional_optionals", po_setup, po_post, po_raises, expect_cover=("return",), max_paths=20000,
+         trusted=["_check_value_key(action, token, ...) type-checks the token for that action or raises", "get_optionals_as_positionals_actions lists the candidate actions in declaration order"]),
+]
